@@ -187,8 +187,11 @@ var _ utils.PriorityQueue
 // and only if it is not a tombstone at that moment (the entry point by precondition, every other vertex by the isDeleted test)
 // what every item of a search beam is: a queue item holding a vertex, with the true distance of that vertex to the query, and
 // not a tombstone (the entry vertex of the level search is the caller's responsibility)
+// ghost function: the vertex a result slot was filled from (one assumption per slot, made when the slot is written)
+//@ ufunc slotV(int) *hnswVertex
+//@ spec resultSource(ix *Hnsw, q math.Vector, it *utils.PriorityQueueItem) bool = it != nil && istype(it.value, *hnswVertex) && it.value.(*hnswVertex) != nil && allocated(it.value.(*hnswVertex)) && istype(it.value.(*hnswVertex), hnswVertex) && it.priority == Distance(ix.space, q, it.value.(*hnswVertex).vector) && it.value.(*hnswVertex).deleted != 1
 //@ spec vtx(it *utils.PriorityQueueItem) *hnswVertex = it.value.(*hnswVertex)
-//@ spec beamItem(ix *Hnsw, q math.Vector, ep *hnswVertex, it *utils.PriorityQueueItem) bool = it != nil && istype(it.value, *hnswVertex) && vtx(it) != nil && it.priority == Distance(ix.space, q, vtx(it).vector) && (vtx(it) == ep || vtx(it).deleted != 1)
+//@ spec beamItem(ix *Hnsw, q math.Vector, ep *hnswVertex, it *utils.PriorityQueueItem) bool = it != nil && istype(it.value, *hnswVertex) && vtx(it) != nil && allocated(vtx(it)) && istype(vtx(it), hnswVertex) && it.priority == Distance(ix.space, q, vtx(it).vector) && (vtx(it) == ep || vtx(it).deleted != 1)
 //@ func (*index.Hnsw).searchLevel
 //@ props C02 C01
 //@ safety UNCLAIMED
@@ -198,7 +201,7 @@ var _ utils.PriorityQueue
 //@ requires [C01 not-a-tombstone] $arg1.(*hnswVertex) != nil && ($arg1.(*hnswVertex) == entrypoint || $arg1.(*hnswVertex).deleted != 1)
 //@ end
 //@ assume [the queue predicate qP is read as: the item was made during this call] forall it *utils.PriorityQueueItem :: qP(it) == fresh(it)
-//@ ensures [C01 beam-contents] istype(ret, *utils.priorityQueue) && ret.pay != 0 && hdyn(ret.(*utils.priorityQueue).queue) && forall k int :: 0 <= k && k < len(qs(ret.(*utils.priorityQueue).queue)) ==> beamItem(this, query, entrypoint, qs(ret.(*utils.priorityQueue).queue)[k])
+//@ ensures [C01 beam-contents] istype(ret, *utils.priorityQueue) && ret.pay != 0 && hdyn(ret.(*utils.priorityQueue).queue) && forall k int :: 0 <= k && k < len(qs(ret.(*utils.priorityQueue).queue)) ==> beamItem(this, query, entrypoint, qs(ret.(*utils.priorityQueue).queue)[k]) && allocated(qs(ret.(*utils.priorityQueue).queue)[k]) && istype(qs(ret.(*utils.priorityQueue).queue)[k], utils.PriorityQueueItem)
 //@ requires [C12 ef-fits] 0 <= ef && ef <= memcap() && this.config != nil && 0 <= this.config.mMax0 && this.config.mMax0 <= 65536
 //@ modifies cells[utils.minPriorityQueue], cells[utils.maxPriorityQueue], mem[*utils.PriorityQueueItem]
 //@ loop 1
@@ -212,10 +215,18 @@ var _ utils.PriorityQueue
 //@ invariant [candidate-queue] istype(candidateVertices, *utils.priorityQueue) && candidateVertices.pay != 0 && wfpq(candidateVertices.(*utils.priorityQueue))
 //@ invariant [separate-queues] qs(candidateVertices.(*utils.priorityQueue).queue).ref != qs(resultVertices.(*utils.priorityQueue).queue).ref && allocated(qs(candidateVertices.(*utils.priorityQueue).queue)) && allocated(qs(resultVertices.(*utils.priorityQueue).queue)) && candidateVertices.(*utils.priorityQueue) != resultVertices.(*utils.priorityQueue) && isMin(candidateVertices.(*utils.priorityQueue).queue) && isMax(resultVertices.(*utils.priorityQueue).queue)
 
+// simple selection: pops the worst until k are left - the same queue object, still well formed, nothing new in it
 //@ func (*index.Hnsw).selectNeighbors
 //@ props C02 C01
 //@ safety UNCLAIMED
+//@ at call priorityQueue).Pop
+//@ requires [C01 items-known] allQ($arg0.queue)
+//@ end
+//@ requires [C01 items-known] istype(neighbors, *utils.priorityQueue) && neighbors.pay != 0 && allQ(neighbors.(*utils.priorityQueue).queue)
+//@ ensures [C01 same-queue] ret == neighbors && allQ(ret.(*utils.priorityQueue).queue)
 //@ modifies cells[utils.minPriorityQueue], cells[utils.maxPriorityQueue], mem[*utils.PriorityQueueItem]
+//@ loop 1
+//@ invariant [C01 items-known] allQ(neighbors.(*utils.priorityQueue).queue)
 
 //@ func (*index.Hnsw).selectNeighborsHeuristic
 //@ props C02 C01
@@ -295,13 +306,27 @@ var _ utils.PriorityQueue
 //@ at call priorityQueue).Len
 //@ set beam = $ret0
 //@ end
+//@ at call Hnsw).searchLevel
+//@ assume [from here on the queue predicate qP is read as: a beam item of this query (true distance, holds a vertex that is not a tombstone)] forall it *utils.PriorityQueueItem! :: qP(it) == resultSource(this, query, it)
+//@ end
 //@ requires [C01 entry] epLive(this)
 //@ ensures [C01 atmostk] isnil(ret1) ==> len(ret0) <= k
+//@ ghost lastV *hnswVertex = nil
+//@ at call priorityQueue).Pop
+//@ requires [C01 items-known] this.config.searchAlgorithm == 0 ==> allQ($arg0.queue)
+//@ assume [ghost function slotV: slot i of the result is filled from the item popped in this iteration; i strictly decreases, so every slot is defined once] slotV(i) == $ret0.value.(*hnswVertex)
+//@ set lastV = $ret0.value.(*hnswVertex)
+//@ end
 //@ ensures [C01 one-slot-per-beam-item] isnil(ret1) ==> len(ret0) <= beam
+//@ ensures [C01 results-are-beam-items] isnil(ret1) && this.config.searchAlgorithm == 0 ==> forall j int :: 0 <= j && j < len(ret0) ==> exists v *hnswVertex :: v.deleted != 1 && ret0[j].Id == v.id && ret0[j].Metadata == v.metadata && ret0[j].Score == Distance(this.space, query, v.vector)
 //@ ensures [never-nil-nil] isnil(ret1) ==> !isnil(ret0)
 //@ modifies cells[utils.minPriorityQueue], cells[utils.maxPriorityQueue], mem[*utils.PriorityQueueItem]
 //@ loop 1
 //@ invariant [C01 descent-live] entrypoint != nil && entrypoint.deleted != 1 && minDistance == Distance(this.space, query, entrypoint.vector)
+//@ loop 2
+//@ invariant [C01 beam-queue] this.config.searchAlgorithm == 0 ==> istype(neighbors, *utils.priorityQueue) && neighbors.pay != 0 && allQ(neighbors.(*utils.priorityQueue).queue)
+//@ invariant [C01 last-slot] this.config.searchAlgorithm == 0 && i + 1 < len(result) ==> lastV != nil && lastV.deleted != 1 && result[i + 1].Id == lastV.id && result[i + 1].Metadata == lastV.metadata && result[i + 1].Score == Distance(this.space, query, lastV.vector)
+//@ invariant [C01 filled] this.config.searchAlgorithm == 0 ==> fresh(result) && 0 - 1 <= i && i < len(result) && forall j int :: i < j && j < len(result) ==> slotV(j) != nil && allocated(slotV(j)) && istype(slotV(j), hnswVertex) && slotV(j).deleted != 1 && result[j].Id == slotV(j).id && result[j].Metadata == slotV(j).metadata && result[j].Score == Distance(this.space, query, slotV(j).vector)
 
 // ---------------------------------------------------------------------------------------------
 // C08: snapshots. Proved here: fixed-size tokens are read completely whatever the reader does (Load never calls Read on
